@@ -8,6 +8,7 @@ dispatch over every encoding with the byte order the decoder used; cpd.enc/cpd.b
 uncrustify_file from what the loader detected (plus the utf8_* options); every byte leaves through write_byte.
 Not decided: the two-run equation format(transcode(x)) = transcode(format(x)) itself; quality of the BOM-less UTF-16 guess.
 """
+import re
 from ..facts import expr_str, walk, global_path, enum_consts
 from .common_io import UNC
 
@@ -299,6 +300,36 @@ def rule_one_encoder(ctx):
     r.floor(3)
 
 
+def rule_no_codepoint_narrowing(ctx):
+    """text is held as code points (UncText = deque<int>, TokenContext::peek/get return size_t); a code point that passes
+    through a `char` keeps its low byte only: U+FF09 compares equal to a tab, U+012B to '+'"""
+    db = ctx.db
+    r = ctx.rule("no-codepoint-narrowing", "no code point obtained from UncText / deque<int> (operator[], at, back, front) or from "
+                 "TokenContext::peek/get is converted, implicitly or explicitly, to an 8-bit type - as an argument, an initialiser or an "
+                 "assignment (facts: every integral conversion to an 8-bit type in the AST, implicit ones included)")
+    SRC = re.compile(r"(^|::)(UncText|deque<int[^>]*>)::(operator\[\]|at|back|front)$|^TokenContext::(peek|get)$")
+    n_conv = n_src = 0
+    for f in sorted(db.funcs.values(), key=lambda g: (g.file, g.l0)):
+        if not f.file.startswith("src/"):
+            continue
+        n_src += sum(1 for n in f.all_nodes() if n["k"] == "call" and SRC.search(n.get("c") or ""))
+        per = {}
+        for x in f.d.get("narrow", ()):
+            n_conv += 1
+            if SRC.search(x.get("c") or ""):
+                per.setdefault(x["c"].split("::")[-2].split("<")[0] + "::" + x["c"].split("::")[-1], []).append(x)
+        for c, xs in sorted(per.items()):
+            r.seen(len(xs))
+            r.fail("%s/%s" % (f.qn.split("::")[-1], c), "%s:%d" % (f.file, xs[0]["l"]),
+                   "a code point from %s() is converted to %s (%d place%s, first: `%s`): every value above 0xFF is cut to its low byte"
+                   % (c, xs[0]["to"], len(xs), "s" if len(xs) > 1 else "", db.src_line(f.file, xs[0]["l"]).strip()[:70]))
+    r.seen(n_conv)
+    r.require(n_conv >= 30, "only %d conversions to 8-bit types in the facts: the extractor no longer records them" % n_conv)
+    r.require(n_src >= 250, "only %d code point sources (UncText element accesses, TokenContext::peek/get) found" % n_src)
+    r.ok("conversions-scanned", "src/unc_text.h:1", "%d conversions to 8-bit types, %d code point sources" % (n_conv, n_src))
+    r.floor(1)
+
+
 def rule_enc_flow(ctx):
     db = ctx.db
     r = ctx.rule("enc-flow", "cpd.enc/cpd.bom are assigned only in uncrustify_file (from fm.enc/fm.bom and the utf8_* options); write_bom is "
@@ -357,4 +388,4 @@ def rule_enc_flow(ctx):
     r.floor(12)
 
 
-RULES = [rule_utf8_tables, rule_utf16_tables, rule_enc_switch, rule_enc_flow, rule_one_encoder]
+RULES = [rule_utf8_tables, rule_utf16_tables, rule_enc_switch, rule_enc_flow, rule_one_encoder, rule_no_codepoint_narrowing]
